@@ -261,6 +261,9 @@ def lazy_run(items, key, ops):
                         (await groups[op[1]].__anext__()) if lib == "asl" else next(groups[op[1]])
                 except (StopAsyncIteration, StopIteration):
                     pass
+                except BaseException as e:  # noqa  (an operation that fails is an observation, not a reason to stop checking)
+                    trace.append(("failed", type(e).__name__))
+                    return
                 trace.append((n["src"], n["key"]))
         drive(go())
         return trace
